@@ -10,6 +10,21 @@ use bevy::prelude::*;
 //-------------------------------------------------------------------------------------------------------------------
 //-------------------------------------------------------------------------------------------------------------------
 
+#[cfg(feature = "verif")]
+fn verif_emit(world: &mut World, event: crate::verif::RunnerEvent)
+{
+    crate::verif::emit(world, event);
+}
+
+#[cfg(feature = "verif")]
+fn verif_emit_abort(world: &mut World, command: SystemCommand, reason: crate::verif::AbortReason)
+{
+    crate::verif::emit(world, crate::verif::RunnerEvent::Abort{ target: *command, reason });
+}
+
+//-------------------------------------------------------------------------------------------------------------------
+//-------------------------------------------------------------------------------------------------------------------
+
 fn cleanup_on_abort(world: &mut World, setup: SystemCommandSetup, cleanup: SystemCommandCleanup)
 {
     // We run setup even on abort in case there was a 'prepare' step that needs to be cleared.
@@ -78,6 +93,8 @@ pub(crate) fn syscommand_runner(
 )
 {
     let idx = **world.resource::<SyscommandCounter>();
+    #[cfg(feature = "verif")]
+    verif_emit(world, crate::verif::RunnerEvent::Enter{ target: *command, counter: idx });
 
     // cleanup
     garbage_collect_entities(world);
@@ -88,14 +105,22 @@ pub(crate) fn syscommand_runner(
     let Ok(mut entity_mut) = world.get_entity_mut(*command)
     else
     {
+        #[cfg(feature = "verif")]
+        verif_emit_abort(world, command, crate::verif::AbortReason::EntityMissing);
         cleanup_on_abort(world, setup, cleanup);
+        #[cfg(feature = "verif")]
+        verif_emit(world, crate::verif::RunnerEvent::Exit{ target: *command });
         return
     };
     let Some(mut system_command) = entity_mut.get_mut::<SystemCommandStorage>()
     else
     {
         tracing::error!(?command, "system command component is missing on extract");
+        #[cfg(feature = "verif")]
+        verif_emit_abort(world, command, crate::verif::AbortReason::StorageMissing);
         cleanup_on_abort(world, setup, cleanup);
+        #[cfg(feature = "verif")]
+        verif_emit(world, crate::verif::RunnerEvent::Exit{ target: *command });
         return
     };
     let Some(mut callback) = system_command.take()
@@ -104,19 +129,27 @@ pub(crate) fn syscommand_runner(
         // Cache the callback unless at the bottom of the pile.
         if idx == 0 {
             tracing::warn!(?command, "system command missing");
+            #[cfg(feature = "verif")]
+            verif_emit_abort(world, command, crate::verif::AbortReason::CallbackMissingAtRoot);
             cleanup_on_abort(world, setup, cleanup);
         } else {
             tracing::debug!(?command, "deferring suspected recursive system command");
+            #[cfg(feature = "verif")]
+            verif_emit(world, crate::verif::RunnerEvent::Postponed{ target: *command });
             world.resource_mut::<CobwebCommandQueue<BufferedSyscommand>>().push(
                 BufferedSyscommand{ command, setup, cleanup }
             );
         }
+        #[cfg(feature = "verif")]
+        verif_emit(world, crate::verif::RunnerEvent::Exit{ target: *command });
 
         return
     };
 
     // run the system command
     **world.resource_mut::<SyscommandCounter>() += 1;
+    #[cfg(feature = "verif")]
+    verif_emit(world, crate::verif::RunnerEvent::RunBegin{ target: *command });
     setup.run(world);
     callback.run(world, cleanup);
 
@@ -149,6 +182,12 @@ pub(crate) fn syscommand_runner(
         garbage_collect_entities(world);
     }
 
+    #[cfg(feature = "verif")]
+    {
+        let reinserted = world.get::<SystemCommandStorage>(*command).map(|s| s.verif_has_callback()).unwrap_or(false);
+        verif_emit(world, crate::verif::RunnerEvent::RunEnd{ target: *command, reinserted });
+    }
+
     // handle the case of garbage collection causing despawns
     schedule_removal_and_despawn_reactors(world);
 
@@ -163,6 +202,8 @@ pub(crate) fn syscommand_runner(
                 if buffered.command == command
                 {
                     tracing::debug!(?command, "running reordered recursive system command");
+                    #[cfg(feature = "verif")]
+                    verif_emit(world, crate::verif::RunnerEvent::Replay{ target: *command });
                     syscommand_runner(world, buffered.command, buffered.setup, buffered.cleanup);
                     return false;
                 }
@@ -177,12 +218,16 @@ pub(crate) fn syscommand_runner(
     {
         while let Some(to_discard) = world.resource_mut::<CobwebCommandQueue<BufferedSyscommand>>().pop_front() {
             tracing::warn!(?to_discard.command, "failed to run missing system command");
+            #[cfg(feature = "verif")]
+            verif_emit(world, crate::verif::RunnerEvent::Discard{ target: *to_discard.command });
             cleanup_on_abort(world, to_discard.setup, to_discard.cleanup);
         }
 
         // Reset the counter since we are exiting the system command tree.
         **world.resource_mut::<SyscommandCounter>() = 0;
     }
+    #[cfg(feature = "verif")]
+    verif_emit(world, crate::verif::RunnerEvent::Exit{ target: *command });
 }
 
 //-------------------------------------------------------------------------------------------------------------------
